@@ -302,3 +302,43 @@ def argument_agreement(chk, rule, rels, floor=None):
     if floor:
         chk.floor(rule, floor, 'resolved calls')
     return n
+
+
+MUTATORS = ('remove', 'append', 'insert', 'pop', 'extend', 'clear', 'sort', 'reverse', 'popitem', 'add', 'discard')
+
+
+def no_mutation_while_iterating(chk, rule, rels, floor=None):
+    """a container is not resized inside a `for` loop that iterates over that very container (elements would be
+    skipped or visited twice); iterating a copy (list(x), sorted(x), x.copy(), x[:]) is the accepted idiom"""
+    model = chk.model
+    chk.doc(rule, 'no `for v in X:` body calls X.remove/append/insert/pop/extend/clear/sort/reverse/add/discard, '
+                  'deletes X[...] or augments X, where X is the iterated expression itself (a copy such as list(X) '
+                  'is fine)')
+    n = 0
+    for rel in rels:
+        mod = model.mod(rel, required=False)
+        if mod is None:
+            continue
+        for loop in ast.walk(mod.tree):
+            if not isinstance(loop, ast.For) or not isinstance(loop.iter, (ast.Name, ast.Attribute, ast.Subscript)):
+                continue
+            x = norm(loop.iter)
+            n += 1
+            bad = []
+            for st in loop.body:
+                for e in ast.walk(st):
+                    if isinstance(e, ast.Call) and isinstance(e.func, ast.Attribute) and e.func.attr in MUTATORS and \
+                            norm(e.func.value) == x:
+                        bad.append(e)
+                    if isinstance(e, ast.Delete) and any(isinstance(t, ast.Subscript) and norm(t.value) == x
+                                                         for t in e.targets):
+                        bad.append(e)
+                    if isinstance(e, ast.AugAssign) and norm(e.target) == x:
+                        bad.append(e)
+            chk.ob(rule, '%s:for %s in %s@%d' % (rel.split('/')[-1], norm(loop.target), x[:40], loop.lineno), not bad,
+                   where(mod, bad[0] if bad else loop),
+                   'the loop iterates %s and its body changes it (%s): elements are skipped' % (
+                       x, norm(bad[0])[:60] if bad else ''))
+    if floor:
+        chk.floor(rule, floor, 'loops over a named container')
+    return n
